@@ -254,6 +254,84 @@ pub fn c15(eng: &mut Engine, rng: &mut Rng, thorough: bool, out: &mut Out) -> Ca
             hop_dbg(&l, "RevocationStatusList", out, "");
         }
     }
+    // a NEGATIVE revealed number in a W3C presentation: its encoding travels inside the msgpack proof value (known finding F22: the sign
+    // is lost there, so the presentation that verifies in memory is rejected once it has crossed a wire); the legacy form of the same
+    // presentation as control
+    {
+        let d = eng.cast.w.def("A");
+        let schemas = eng.cast.w.schemas();
+        let cred_defs = eng.cast.w.cred_defs();
+        let vals: Vec<(String, String)> = vec![("name".into(), "Alice".into()), ("age".into(), "-25".into()), ("sex".into(), "F".into()), ("height".into(), "-0170".into())];
+        if let Ok(cred) = crate::world::issue_plain(d, &eng.cast.holders[0], &vals) {
+            let req: PresentationRequest = serde_json::from_value(json!({"nonce": format!("{}", 1000 + rng.below(1_000_000_000)), "name":"r","version":"1.0","requested_attributes": {"r0": {"name": "age"}, "r1": {"name": "height"}}, "requested_predicates": {}})).unwrap();
+            let mut pc = PresentCredentials::default();
+            {
+                let mut x = pc.add_credential(&cred, None, None);
+                x.add_requested_attribute("r0", true);
+                x.add_requested_attribute("r1", true);
+            }
+            if let Ok(p) = prover::create_presentation(&req, pc, None, &eng.cast.holders[0], &schemas, &cred_defs) {
+                let p2 = hop(&p, "Presentation", out, "");
+                let (v1, v2) = (verifier::verify_presentation(&p, &req, &schemas, &cred_defs, None, None, None).unwrap_or(false), verifier::verify_presentation(&p2, &req, &schemas, &cred_defs, None, None, None).unwrap_or(false));
+                out.count(&format!("c15:negative-revealed:legacy:{v1}:{v2}"));
+                if !v1 || !v2 {
+                    out.oracle_fail("a legacy presentation revealing a negative number does not verify (before / after a hop)", &json!({"fam":"c15.present","sig":"","format":"legacy"}), &json!({"direct": v1, "hopped": v2}));
+                }
+            }
+            if let Ok(wc) = anoncreds::w3c::credential_conversion::credential_to_w3c(&cred, &d.issuer, None) {
+                let mut pc = PresentCredentials::default();
+                {
+                    let mut x = pc.add_credential(&wc, None, None);
+                    x.add_requested_attribute("r0", true);
+                    x.add_requested_attribute("r1", true);
+                }
+                if let Ok(p) = w3c::prover::create_presentation(&req, pc, &eng.cast.holders[0], &schemas, &cred_defs, None) {
+                    let p2 = hop(&p, "W3CPresentation", out, "C15:w3c:negative-revealed-value-lost-in-proof-value");
+                    let (v1, v2) = (w3c::verifier::verify_presentation(&p, &req, &schemas, &cred_defs, None, None, None).unwrap_or(false), w3c::verifier::verify_presentation(&p2, &req, &schemas, &cred_defs, None, None, None).unwrap_or(false));
+                    out.count(&format!("c15:negative-revealed:w3c:{v1}:{v2}"));
+                    if v1 != v2 || !v1 {
+                        out.oracle_fail("a W3C presentation revealing a negative number verifies in memory but not after a wire hop", &json!({"fam":"c15.present","sig":"C15:w3c:negative-revealed-value-lost-in-proof-value","format":"w3c"}), &json!({"direct": v1, "hopped": v2}));
+                    }
+                }
+            }
+        }
+    }
+    // every data-model version of the W3C form (1.1 carries an issuance date, 2.0 does not): converted credentials and presentations
+    // made from them, each across a hop
+    {
+        use anoncreds::data_types::w3c::VerifiableCredentialSpecVersion as Ver;
+        let schemas = eng.cast.w.schemas();
+        let cred_defs = eng.cast.w.cred_defs();
+        for i in 0..eng.cast.creds.len() {
+            if eng.cast.creds[i].holder != 0 || eng.cast.creds[i].rev.is_some() {
+                continue;
+            }
+            let d = &eng.cast.w.defs[eng.cast.creds[i].def];
+            for ver in [Ver::V1_1, Ver::V2_0] {
+                let Ok(wc) = anoncreds::w3c::credential_conversion::credential_to_w3c(&eng.cast.creds[i].cred, &d.issuer, Some(ver.clone())) else {
+                    out.oracle_fail("a cast credential does not convert to the W3C form of a data-model version", &json!({"fam":"c15.hop","sig":"","type":"W3CCredential","version":format!("{ver:?}")}), &Value::Null);
+                    continue;
+                };
+                let wc2 = hop_eq(&wc, "W3CCredential", out, "");
+                out.count(&format!("c15:w3c-version:{ver:?}:credential"));
+                let n0 = eng.cast.creds[i].values[0].0.clone();
+                let req: PresentationRequest = serde_json::from_value(json!({"nonce": format!("{}", 1000 + rng.below(1_000_000_000)), "name":"r","version":"1.0","requested_attributes": {"r0": {"name": n0}}, "requested_predicates": {}})).unwrap();
+                let mut pc = PresentCredentials::default();
+                pc.add_credential(&wc2, None, None).add_requested_attribute("r0", true);
+                match w3c::prover::create_presentation(&req, pc, &eng.cast.holders[0], &schemas, &cred_defs, Some(ver.clone())) {
+                    Ok(p) => {
+                        let p2 = hop_eq(&p, "W3CPresentation", out, "");
+                        let v = w3c::verifier::verify_presentation(&p2, &req, &schemas, &cred_defs, None, None, None).unwrap_or(false);
+                        out.count(&format!("c15:w3c-version:{ver:?}:presentation:{v}"));
+                        if !v {
+                            out.oracle_fail("a W3C presentation of a data-model version does not verify after a hop", &json!({"fam":"c15.hop","sig":"","type":"W3CPresentation","version":format!("{ver:?}")}), &Value::Null);
+                        }
+                    }
+                    Err(e) => out.oracle_fail("a W3C presentation of a data-model version could not be made", &json!({"fam":"c15.hop","sig":"","type":"W3CPresentation","version":format!("{ver:?}")}), &json!({"err": e.to_string()})),
+                }
+            }
+        }
+    }
     for i in 0..(if thorough { 300 } else { 24 }) {
         let w3c_form = i % 2 == 1;
         let plan = gen_honest_plan(rng, &eng.cast, w3c_form, i % 3 == 0);
@@ -646,6 +724,17 @@ pub fn c07(eng: &mut Engine, rng: &mut Rng, thorough: bool, out: &mut Out) -> Ca
                 2 => group.push(name.clone()),
                 3 if raw.parse::<i32>().is_ok() => { preds.insert(format!("p{k}"), json!({"name": name, "p_type": ">=", "p_value": 5})); sel.push((format!("p{k}"), true, false)); }
                 _ => {}
+            }
+        }
+        // names the CL layer itself uses (the link secret is the hidden attribute `master_secret`): asked for like any attribute, inside
+        // a group or alone, revealed or not — the prover must refuse or hide, never open it
+        if rng.chance(1, 6) {
+            let reserved = *rng.pick(&["master_secret", "Master_Secret ", "MASTER_SECRET", "master secret"]);
+            if !group.is_empty() && rng.chance(1, 2) {
+                group.push(reserved.to_string());
+            } else {
+                attrs.insert("rs".into(), json!({"name": reserved}));
+                sel.push(("rs".into(), false, rng.chance(1, 2)));
             }
         }
         if !group.is_empty() {
@@ -1439,7 +1528,16 @@ pub fn c13f(eng: &mut Engine, rng: &mut Rng, thorough: bool, out: &mut Out) -> C
                 for i in 0..names.len() { x.add_requested_attribute(format!("r{i}"), true); }
             }
             let v = match w3c::prover::create_presentation(&req, pc, &ls, &schemas, &cred_defs, None) {
-                Ok(p) => match w3c::verifier::verify_presentation(&p, &req, &schemas, &cred_defs, None, None, None) { Ok(true) => "T".to_string(), Ok(false) => "F".into(), Err(e) => format!("E:{e}") },
+                Ok(p) => {
+                    // ... and once more after a wire hop (the revealed encodings travel inside the msgpack proof value)
+                    let hopped: Result<W3CPresentation, _> = serde_json::from_str(&serde_json::to_string(&p).unwrap());
+                    let vh = match &hopped { Ok(p2) => match w3c::verifier::verify_presentation(p2, &req, &schemas, &cred_defs, None, None, None) { Ok(true) => "T".to_string(), Ok(false) => "F".into(), Err(e) => format!("E:{e}") }, Err(e) => format!("hop-err:{e}") };
+                    out.count(&format!("c13:flow:w3c-after-hop:{}", &vh[..1]));
+                    if vh != "T" {
+                        out.oracle_fail("honest W3C presentation revealing boundary values does not verify after a wire hop", &json!({"fam":"c13.flow","sig":"C15:w3c:negative-revealed-value-lost-in-proof-value","values": vals, "how": how}), &json!({"outcome": vh}));
+                    }
+                    match w3c::verifier::verify_presentation(&p, &req, &schemas, &cred_defs, None, None, None) { Ok(true) => "T".to_string(), Ok(false) => "F".into(), Err(e) => format!("E:{e}") }
+                }
                 Err(e) => format!("present-err:{e}"),
             };
             out.count(&format!("c13:flow:w3c:{}", &v[..1]));
